@@ -104,6 +104,9 @@ type Alias struct {
 	File     string `json:"file"`
 	Prim     string `json:"prim"`
 	Assigned bool   `json:"assigned,omitempty"` // type X = prim
+	// Of: the alias is declared on top of ANOTHER alias (type AccountId BaseId); Prim stays the final primitive
+	OfPkg  string `json:"of_pkg,omitempty"`
+	OfName string `json:"of_name,omitempty"`
 }
 
 type Project struct {
